@@ -450,11 +450,6 @@ theorem jaNee_ok : KindOK (.modelled jaNeeCodec) := by
     simp [jaNeeCodec, this]
   · simp [jaNeeCodec]
 
-/-- `PDiffs`: written `true`, which the reader rejects -/
-theorem pdiffs_ok : KindOK (.noRoundTrip pdiffsCodec (.bool true)) := by
-  show pdiffsCodec.de (pdiffsCodec.ser (.bool true)) ≠ .ok (.bool true)
-  decide
-
 /-! #### unsigned integers -/
 
 def uStep (bound a : Nat) (c : Char) : Except Str Nat :=
@@ -602,13 +597,27 @@ theorem splitOn_join (l : List Str) (hne : l ≠ []) (h : ∀ w ∈ l, '\n' ∉ 
       simp only [joinWith, Text.join, List.append_assoc, List.cons_append, List.nil_append] at this ⊢
       rw [splitOn_cons '\n' x _ (h x (by simp)), this]
 
+theorem join_eq_nil (l : List Str) (h : joinWith ['\n'] l = []) : l = [] ∨ l = [[]] := by
+  cases l with
+  | nil => left; rfl
+  | cons x r =>
+    cases r with
+    | nil => right; simp [joinWith, Text.join] at h; simp [h]
+    | cons y r' => simp [joinWith, Text.join] at h
+
 theorem splitLines_ok : KindOK (.modelled splitLinesCodec) := by
   intro v ⟨l, hv, hne, hl⟩; subst hv
-  simp only [splitLinesCodec, listSer, splitOn_join l hne hl]
+  simp only [splitLinesCodec, listSer]
+  by_cases hj : joinWith ['\n'] l = []
+  · rcases join_eq_nil l hj with rfl | rfl
+    · simp [joinWith, Text.join]
+    · exact absurd rfl hne
+  · have hl0 : l ≠ [] := by intro e; apply hj; rw [e]; rfl
+    simp only [hj, ↓reduceIte, splitOn_join l hl0 hl]
 
-/-- the excluded case of `splitLinesCodec.canon` (finding F-C16-2): the empty list reads back as `[""]` -/
-theorem C16_splitLines_needs_nonempty :
-    splitLinesCodec.de (splitLinesCodec.ser (.list [])) = .ok (.list [[]]) := by decide
+/-- the domain condition `l ≠ [""]` of `splitLinesCodec` cannot be dropped: `[""]` prints like `[]` -/
+theorem C16_splitLines_needs_not_single_empty :
+    splitLinesCodec.de (splitLinesCodec.ser (.list [[]])) = .ok (.list []) := by decide
 
 theorem rawLines_single (w : Str) (hne : w ≠ []) (h : '\n' ∉ w) : rawLines w = [(w, false)] := by
   induction w with
@@ -717,7 +726,7 @@ theorem C16_registry_ok : ∀ e ∈ registry, KindOK e.2 := by
   unfold registry
   exact ⟨str_ok, bool_ok, nat_ok _, nat_ok _, trivial, priority_ok, priority_ok, multiArch_ok, multiArch_ok,
     yesNoForce_ok, vcs_ok, fwd_ok, origin_ok, license_ok, sig_ok, trivial, trivial, trivial, trivial, trivial,
-    trivial, yesno_ok _, yesno_ok _, yesno_ok _, pdiffs_ok, jaNee_ok, words_ok, words_ok, words_ok, words_ok,
+    trivial, yesno_ok _, yesno_ok _, yesno_ok _, jaNee_ok, words_ok, words_ok, words_ok, words_ok,
     words_ok, splitLines_ok, splitLines_ok, fileList_ok, lines_ok, types_ok, env_ok, str_ok, originField_ok,
     trivial⟩
 
@@ -730,11 +739,12 @@ theorem C16_structs_keys_nodup : ∀ s ∈ Gen.Structs.all, (s.fields.map (·.ke
 theorem C16_structs_codecs_registered :
     ∀ s ∈ Gen.Structs.all, ∀ f ∈ s.fields, (kindOf f).isSome = true := by decide +kernel
 
-/-- which fields of which structs use a pair marked `noRoundTrip`: exactly `Repository.pdiffs` -/
+/-- no struct of the workspace has a field whose codec pair is marked `noRoundTrip` -/
 theorem C16_structs_noRoundTrip_fields :
-    (Gen.Structs.all.flatMap fun s => (s.fields.filter fun f => ((kindOf f).map Kind.isNoRoundTrip).getD false).map
-      fun f => (s.name, f.key)) = [(c!"aptsources.Repository", c!"PDiffs")] := by decide +kernel
+    ∀ s ∈ Gen.Structs.all, ∀ f ∈ s.fields, ((kindOf f).map Kind.isNoRoundTrip).getD false = false := by
+  decide +kernel
 
+-- PINNED-KEYS-BEGIN (regenerate with `python3 tools/translate.py pins` after reviewing the change)
 def pinnedKeys : List (Str × List Str) := [
   (c!"aptsources.Repository", [c!"Enabled", c!"Types", c!"URIs", c!"Suites", c!"Components", c!"Architectures", c!"Languages", c!"Targets", c!"PDiffs", c!"By-Hash", c!"Allow-Insecure", c!"Allow-Weak", c!"Allow-Downgrade-To-Insecure", c!"Trusted", c!"Signed-By", c!"X-Repolib-Name", c!"Description"]),
   (c!"apt.Release", [c!"Codename", c!"Components", c!"Architectures", c!"Description", c!"Origin", c!"Label", c!"Suite", c!"Version", c!"Date", c!"NotAutomatic", c!"ButAutomaticUpgrades", c!"Acquire-By-Hash"]),
@@ -758,17 +768,18 @@ def pinnedKeys : List (Str × List Str) := [
   (c!"derive.SynMixed", [c!"Name", c!"name_lower", c!"Size", c!"Multi-Arch", c!"Words", c!"tail"]),
   (c!"derive.SynOne", [c!"Only"]),
   (c!"derive.SynEmpty", [])]
-
+-- PINNED-KEYS-END
 /-- the key literals (explicit `field = "…"` or the identifier) of every struct, pinned: a changed
     or added key in /repo has to be acknowledged here -/
 theorem C16_structs_keys_pinned :
     Gen.Structs.all.map (fun s => (s.name, s.fields.map (·.key))) = pinnedKeys := by decide +kernel
 
+-- PINNED-SOURCES-BEGIN
 def pinnedSources : List (Str × Str) := [
   (c!"apt.deserialize_architectures", c!"24c12893df7949fc"),
   (c!"apt.deserialize_binaries", c!"4c08b5c0849e2cb0"),
   (c!"apt.deserialize_components", c!"ef6e5d7cf3234fb6"),
-  (c!"apt.deserialize_package_list", c!"a5f1c21965dc8832"),
+  (c!"apt.deserialize_package_list", c!"99aaf0caef4d5ed1"),
   (c!"apt.join_lines", c!"9647f45e651fa1aa"),
   (c!"apt.join_whitespace", c!"a76afdce556f0f0e"),
   (c!"aptsources.deserialize_string_chain", c!"48fa7950dc3f182f"),
@@ -789,7 +800,7 @@ def pinnedSources : List (Str × Str) := [
   (c!"control.serialize_yesno", c!"a5e2d3ca5cfd8540"),
   (c!"convert.from_bool", c!"eaf5c46349d0a804"),
   (c!"convert.to_bool", c!"587ba262f0a349a8"),
-  (c!"debiancopyright.deserialize_copyrights", c!"00a846f4ad444573"),
+  (c!"debiancopyright.deserialize_copyrights", c!"27f4f216647b1082"),
   (c!"debiancopyright.deserialize_file_list", c!"33ebd9d0d264b62c"),
   (c!"debiancopyright.serialize_copyrights", c!"fd9b2ccbbc0fef76"),
   (c!"debiancopyright.serialize_file_list", c!"4e3ab4adc45f0781"),
@@ -803,6 +814,7 @@ def pinnedSources : List (Str × Str) := [
   (c!"derive.syn_ser_yesno", c!"ab90ca3ba6ac3375"),
   (c!"ftpmaster.deserialize_list", c!"8fb0e78c259044d0"),
   (c!"ftpmaster.serialize_list", c!"81d35b527149ef67")]
+-- PINNED-SOURCES-END
 /-- the source text (SHA-256 prefix; the text itself is in the comment of `Gen.Structs.codecSources`)
     of every custom (de)serialiser named by a struct field, pinned: an edit of a
     codec function in /repo has to be acknowledged here (and its model in `DeriveCodecs` reviewed) -/
@@ -814,7 +826,7 @@ theorem C16_codec_sources_pinned : Gen.Structs.codecSources = pinnedSources := b
 def specOfRow (s : StructRow) : Option (List (FieldSpec Val)) :=
   s.fields.mapM fun f => (kindOf f).map fun k => ⟨f.key, f.optional, k.codec.ser, k.codec.de⟩
 
-theorem C16_structs_roundtrip (B : Backend P) (hB : Lawful B) :
+theorem C16_structs_roundtrip_of_codecs (B : Backend P) (hB : Lawful B) :
     ∀ s ∈ Gen.Structs.all, ∀ spec, specOfRow s = some spec → ∀ x,
       WellFormed spec x → CodecsRoundTrip spec x →
       fromParagraph B spec (toParagraph B spec x) = .ok x
@@ -842,5 +854,71 @@ theorem C16_structs_roundtrip (B : Backend P) (hB : Lawful B) :
             simp [specKeys, ← ih rest hr]
     rw [this]; exact h1
   exact ⟨C16_roundtrip B hB spec x hk hw hc, fun p => C16_update_reads_back B hB spec x p hk hw hc⟩
+
+
+theorem lookupKind_mem (k : Str × Str × Str) (l : List ((Str × Str × Str) × Kind)) (kd : Kind)
+    (h : lookupKind k l = some kd) : (k, kd) ∈ l := by
+  induction l with
+  | nil => simp [lookupKind] at h
+  | cons e r ih =>
+    simp only [lookupKind] at h
+    split at h
+    · rename_i he
+      simp only [Option.some.injEq] at h
+      have : e = (k, kd) := by rw [← he, ← h]
+      simp [this]
+    · exact List.mem_cons_of_mem _ (ih h)
+
+/-- every present field value lies in the domain of its (modelled) leaf codec -/
+def LeafDomain : List FieldRow → List (Option Val) → Prop
+  | f :: fs, some v :: vs => (∃ c, kindOf f = some (.modelled c) ∧ c.canon v) ∧ LeafDomain fs vs
+  | _ :: fs, none :: vs => LeafDomain fs vs
+  | _, _ => True
+
+theorem codecs_of_leafDomain (fl : List FieldRow) (spec : List (FieldSpec Val)) (x : List (Option Val))
+    (hs : fl.mapM (fun f => (kindOf f).map fun k => (⟨f.key, f.optional, k.codec.ser, k.codec.de⟩ : FieldSpec Val)) = some spec)
+    (hd : LeafDomain fl x) : CodecsRoundTrip spec x := by
+  induction fl generalizing spec x with
+  | nil => simp at hs; subst hs; cases x <;> trivial
+  | cons f fs ih =>
+    simp only [List.mapM_cons, Option.bind_eq_bind] at hs
+    cases hk : kindOf f with
+    | none => simp [hk] at hs
+    | some k =>
+      simp only [hk, Option.map_some, Option.bind_some] at hs
+      cases hr : List.mapM (fun f => (kindOf f).map fun k => (⟨f.key, f.optional, k.codec.ser, k.codec.de⟩ : FieldSpec Val)) fs with
+      | none => simp [hr] at hs
+      | some rest =>
+        simp only [hr, Option.bind_some, Option.pure_def, Option.some.injEq] at hs
+        subst hs
+        cases x with
+        | nil => trivial
+        | cons v vs =>
+          cases v with
+          | none => simp only [LeafDomain] at hd; simp only [CodecsRoundTrip]; exact ih rest vs hr hd
+          | some v =>
+            simp only [LeafDomain] at hd
+            obtain ⟨⟨c, hc, hcan⟩, hrest⟩ := hd
+            simp only [CodecsRoundTrip]
+            refine ⟨?_, ih rest vs hr hrest⟩
+            rw [hk] at hc
+            simp only [Option.some.injEq] at hc
+            subst hc
+            have hmem := lookupKind_mem _ _ _ hk
+            have := C16_registry_ok _ hmem
+            exact this v hcan
+
+/-- **all shipped structs**: for every struct of the generated table (none has a `noRoundTrip`
+    field), every lawful back-end and every value whose field values lie in the domains of their
+    modelled leaf codecs: `from_paragraph(to_paragraph(x)) = Ok(x)`, and after `update_paragraph` on
+    any prior paragraph it reads back as `x` -/
+theorem C16_structs_roundtrip (B : Backend P) (hB : Lawful B) :
+    ∀ s ∈ Gen.Structs.all, ∀ spec, specOfRow s = some spec → ∀ x,
+      WellFormed spec x → LeafDomain s.fields x →
+      fromParagraph B spec (toParagraph B spec x) = .ok x
+      ∧ ∀ p, fromParagraph B spec (updateParagraph B spec x p) = .ok x := by
+  intro s hs spec hspec x hw hd
+  exact C16_structs_roundtrip_of_codecs B hB s hs spec hspec x hw
+    (codecs_of_leafDomain s.fields spec x (by unfold specOfRow at hspec; exact hspec) hd)
 
 end Deb822Verif.Props.C16
